@@ -45,6 +45,7 @@ ASSUMPTIONS = ['a long-poll may legitimately take ping_interval+ping_timeout; '
 REQUIRED = ['request_completion', 'status_set', 'gateway_protocol',
             'api_completion', 'background_exceptions', 'wsgi_validator',
             'history_probes', 'odd_requests', 'slow_handler_disconnects',
+            'competing_upgrades',
             'preempt_scenarios',
             'preemptions']
 SHARD_TIMEOUT = {'quick': 500, 'thorough': 3400}
@@ -438,6 +439,82 @@ def run_slowdisc(rec, case):
         sim.teardown()
 
 
+def run_compete(rec, case):
+    """Two upgrade sockets competing for ONE polling session (the second is
+    accepted before the first completes). Whatever the server makes of the
+    loser, every event it emits on either WebSocket scope stays in a legal
+    order, the winner keeps working both ways, and the session ends once."""
+    srv, b_when, b_act, a_end = case['compete']
+    rec.evaluations += 1
+    rec.count('competing_upgrades')
+    rec.key('compete/' + '/'.join(case['compete']))
+    sim = scen.make_sim(srv, server_kwargs={'ping_interval': PI,
+                                            'ping_timeout': PT})
+    desc = 'COMPETING-UPGRADES second socket %s, then %s; first ends by %s; ' \
+        'server=%s' % (b_when, b_act, a_end, srv)
+
+    def V(key, msg):
+        rec.viol(key, msg + ' | ' + desc, case)
+    try:
+        h = sim.open_polling()
+        p = sim.poll(h)
+        wsA, tA = sim.upgrade_ws(h)
+        sim.quiesce()
+        wsB = None
+        if b_when == 'before-probe':
+            wsB, tB = sim.upgrade_ws(h)
+            sim.quiesce()
+        wsA.send('2probe')
+        sim.quiesce()
+        if b_when == 'after-probe':
+            wsB, tB = sim.upgrade_ws(h)
+            sim.quiesce()
+        wsA.send('5')
+        sim.quiesce()
+        if b_act == 'wrong-first':
+            wsB.send('4x')
+        elif b_act == 'close':
+            wsB.close()
+        else:
+            wsB.send('2probe')
+            sim.quiesce()
+            if b_act == 'probe-then-wrong':
+                wsB.send('4x')
+            elif b_act == 'probe-then-close':
+                wsB.close()
+        sim.quiesce()
+        n0 = len(sim.events)
+        sim.app_call('send', h.sid, 'after')
+        wsA.send('4fromclient')
+        sim.quiesce()
+        if '4after' not in [f['frame'] for f in wsA.frames] or not any(
+                e['ev'] == 'message' and e['data'] == 'fromclient'
+                for e in sim.events[n0:]):
+            V('established-socket-disturbed', 'after the competing attempt '
+              'failed the first socket carries %r, events %r' % (
+                  [f['frame'] for f in wsA.frames],
+                  [(e['ev'], e.get('data')) for e in sim.events[n0:]]))
+        if a_end == 'client-close':
+            wsA.close()
+        elif a_end == 'disconnect':
+            sim.app_call('disconnect', h.sid)
+        sim.quiesce()
+        sim.advance(PI + 3 * PT + PI + PT)
+        sim.quiesce()
+        dis = [e for e in sim.events if e['ev'] == 'disconnect']
+        if len(dis) != 1:
+            V('disconnect-count-after-competing-upgrades', '%d disconnect '
+              'events %r' % (len(dis), [d['reason'] for d in dis]))
+        rec.count('gateway_protocol')
+        for name, w in (('first', wsA), ('second', wsB)):
+            if w.proto:
+                V('gateway-protocol', 'illegal event order on the %s '
+                  'WebSocket scope: %r' % (name, w.proto[:3]))
+        judge_background(rec, sim, V)
+    finally:
+        sim.teardown()
+
+
 def run_hist(rec, case):
     """Requests of the cross product and API calls issued at seeded points of
     a generated session history (polls pending or not, mid-handshake,
@@ -640,6 +717,8 @@ def dispatch(rec, case):
         run_odd(rec, case)
     elif 'slowdisc' in case:
         run_slowdisc(rec, case)
+    elif 'compete' in case:
+        run_compete(rec, case)
     elif 'i' in case:
         run_hist(rec, case)
     else:
@@ -665,6 +744,12 @@ def plan(tier, seed):
         for call in ('sid', 'all'):
             for when in ('before', 'during'):
                 cases.append({'slowdisc': [srv, call, when]})
+    for srv in SRV:
+        for b_when in ('before-probe', 'after-probe'):
+            for b_act in ('wrong-first', 'close', 'probe-then-wrong',
+                          'probe-then-close'):
+                for a_end in ('client-close', 'disconnect', 'silence'):
+                    cases.append({'compete': [srv, b_when, b_act, a_end]})
     for iodd in range(len(ODD)):
         for im in range(len(METHODS)):
             for ist in (0, 1, 2, 3, 5):
